@@ -423,8 +423,36 @@ Definition run_c04_run (args : list sx) : sx :=
   | x => x
   end.
 
+(* c04.srvexit: one batch through the real Run() in server mode; the server under test (a real OS
+   process) exits with status 0 while the runner is about to send the request with index k: the
+   requests 0..k are sent (the check of the server's fate precedes the send), every later case is
+   given the set-up error "server process terminated unexpectedly".
+   (known-failing) (known-flaky) ((name reply) ...) k -> (verdict exit-status report) *)
+Definition srvexit_ops (cs : list rcase) (k : nat) : list op :=
+  map reply_op (firstn (S k) cs)
+  ++ map (fun c => OSet c.(rc_name) (Fail true ESetup)) (skipn (S k) cs)
+  ++ [OFailRemaining (map rc_name cs) ENoOutcome].
+
+Definition run_c04_srvexit (args : list sx) : sx :=
+  or_bad (match args with
+  | [kf; kfl; cs; I k] =>
+    do kf <- un_listof un_B kf; do kfl <- un_listof un_B kfl; do cs <- un_listof un_rcase cs;
+    if (k <? 0)%Z then None else
+    let c := mkCfg (length cs) (marks kf) (marks kfl) in
+    let st := run c (srvexit_ops cs (Z.to_nat k)) in
+    let v := verdict c st false in
+    (* the order of the cases inside a batch is Go's map order: the cases are all alike (generator)
+       and the FAILED / INFO names are compared by number only *)
+    let r := report c st in
+    ret (L [sx_bool v; sx_nat (exit_status v);
+            L [ sx_bool v; sx_nat r.(r_total); sx_nat r.(r_passed); sx_nat r.(r_failed);
+                sx_nat r.(r_notrun); sx_nat r.(r_expected);
+                sx_nat (length r.(r_failed_names)); sx_nat (length r.(r_info_names)) ]])
+  | _ => None end).
+
 Definition c04_table : list (bytes * (list sx -> sx)) :=
   [ (bs "c04.results", run_c04_results);
     (bs "c04.flow", run_c04_flow);
     (bs "c04.run", run_c04_run);
+    (bs "c04.srvexit", run_c04_srvexit);
     (bs "c04.peer", run_c04_peer) ].
